@@ -23,14 +23,38 @@ def inline(ctx, func, expr, depth=3):
     return text(_subst(ctx, func, expr, depth))
 
 
-def _subst(ctx, func, expr, depth):
+def inline_x(ctx, func, expr, depth=3):
+    """inline() that also reads a name bound once by unpacking `a, b = E`
+    as `E[0]` / `E[1]` (E is then a tuple-valued expression evaluated once;
+    use only where E is a pure getter)."""
+    if depth <= 0 or expr is None:
+        return text(expr)
+    return text(_subst(ctx, func, expr, depth, True))
+
+
+def _unpacked(ctx, func, name_node):
+    facts, is_param = ctx.ty.facts_at(func, name_node.id, name_node)
+    facts = [fa for fa in facts if fa.kind != "add"]
+    if is_param or len(facts) != 1:
+        return None
+    fa = facts[0]
+    if fa.kind != "expr" or len(fa.path) != 1 or fa.always or \
+            not isinstance(fa.stmt, ast.Assign):
+        return None
+    return ast.Subscript(value=fa.value, slice=ast.Constant(value=fa.path[0]),
+                         ctx=ast.Load())
+
+
+def _subst(ctx, func, expr, depth, unpack=False):
     """Rebuild `expr` with single-def names replaced (non-destructive)."""
     if depth <= 0:
         return expr
     if isinstance(expr, ast.Name) and isinstance(expr.ctx, ast.Load):
         v = single_def(ctx, func, expr)
+        if v is None and unpack:
+            v = _unpacked(ctx, func, expr)
         if v is not None:
-            return _subst(ctx, func, v, depth - 1)
+            return _subst(ctx, func, v, depth - 1, unpack)
         return expr
     if isinstance(expr, (ast.Lambda, ast.Constant)) or expr is None:
         return expr
@@ -39,10 +63,10 @@ def _subst(ctx, func, expr, depth):
     new = type(expr)()
     for f, v in ast.iter_fields(expr):
         if isinstance(v, list):
-            setattr(new, f, [_subst(ctx, func, x, depth) if isinstance(x, ast.AST)
+            setattr(new, f, [_subst(ctx, func, x, depth, unpack) if isinstance(x, ast.AST)
                              else x for x in v])
         elif isinstance(v, ast.AST):
-            setattr(new, f, _subst(ctx, func, v, depth))
+            setattr(new, f, _subst(ctx, func, v, depth, unpack))
         else:
             setattr(new, f, v)
     for a in ("lineno", "col_offset", "end_lineno", "end_col_offset"):
@@ -64,6 +88,76 @@ def single_def(ctx, func, name_node):
     if isinstance(fa.stmt, ast.AugAssign):
         return None
     return fa.value
+
+
+def as_lambda(ctx, func, expr):
+    """(parameter names, body expression) of a one-expression callable: a
+    lambda, a variable bound once to one, or a nested `def` (bound once)
+    whose body is a single `return <expr>`; None otherwise."""
+    if isinstance(expr, ast.Name):
+        v = single_def(ctx, func, expr)
+        if v is not None:
+            expr = v
+        else:
+            defs = [n for n in func.own_nodes() if isinstance(n, ast.FunctionDef)
+                    and n.name == expr.id]
+            others = [n for n in func.own_nodes() if isinstance(n, ast.Name)
+                      and n.id == expr.id and isinstance(n.ctx, ast.Store)]
+            if len(defs) == 1 and not others:
+                d = defs[0]
+                body = [b for b in d.body if not (isinstance(b, ast.Expr) and
+                        isinstance(b.value, ast.Constant))]
+                if len(body) == 1 and isinstance(body[0], ast.Return) and \
+                        body[0].value is not None and not d.args.vararg and \
+                        not d.args.kwarg and not d.args.kwonlyargs and \
+                        not d.decorator_list:
+                    return [a.arg for a in d.args.args], body[0].value
+            return None
+    if isinstance(expr, ast.Lambda) and not expr.args.vararg and \
+            not expr.args.kwarg and not expr.args.kwonlyargs:
+        return [a.arg for a in expr.args.args], expr.body
+    return None
+
+
+def beta(ctx, func, call):
+    """`h(a, b)` with h a local one-expression callable (as_lambda) read as
+    h's body with the arguments substituted for its parameters; None when
+    the call is not of that shape.  The result is a fresh tree carrying the
+    call's position."""
+    import copy
+    if not (isinstance(call, ast.Call) and isinstance(call.func, ast.Name)):
+        return None
+    lam = as_lambda(ctx, func, call.func)
+    if lam is None:
+        return None
+    params, body = lam
+    if any(isinstance(a, ast.Starred) for a in call.args) or \
+            any(k.arg is None for k in call.keywords):
+        return None
+    bind = dict(zip(params, call.args))
+    if len(call.args) > len(params):
+        return None
+    for k in call.keywords:
+        if k.arg not in params or k.arg in bind:
+            return None
+        bind[k.arg] = k.value
+    if set(bind) != set(params):
+        return None
+
+    class Sub(ast.NodeTransformer):
+        def visit_Name(self, n):
+            if isinstance(n.ctx, ast.Load) and n.id in bind:
+                return copy.deepcopy(bind[n.id])
+            return n
+
+        def visit_Lambda(self, n):
+            return n
+    new = Sub().visit(copy.deepcopy(body))
+    for n in ast.walk(new):
+        for a in ("lineno", "col_offset", "end_lineno", "end_col_offset"):
+            if hasattr(call, a):
+                setattr(n, a, getattr(call, a))
+    return new
 
 
 def defs_of(ctx, func, name_node):
